@@ -206,3 +206,457 @@ Proof. intros H. unfold fmt. now rewrite fmt_scan_no_close. Qed.
 
 Lemma fmt_brace_free s : brace_free s -> fmt s = s.
 Proof. intros [H _]. now apply fmt_no_open. Qed.
+
+(* ====================================================================================== *)
+(* Fmt on piece sequences                                                                 *)
+(* ====================================================================================== *)
+
+(* ---- facts about the two tables, checked by computation over the (finite) tables ---- *)
+
+Definition table_names_lower {V} (t : list (str * V)) : bool :=
+  forallb (fun nv => forallb is_lower (fst nv)) t.
+
+Lemma colors_lower : table_names_lower fmt_colors = true.
+Proof. vm_compute. reflexivity. Qed.
+Lemma codes_lower : table_names_lower fmt_codes = true.
+Proof. vm_compute. reflexivity. Qed.
+
+(* Sprintf("%02d") of every colour number is the two-digit form, 00 .. 19 *)
+Definition colour_ok (c : N) : bool :=
+  streqb (sprintf_02d c) (two_digits c) && (c <? 20).
+Lemma colors_two_digits : forallb (fun nv => colour_ok (snd nv)) fmt_colors = true.
+Proof. vm_compute. reflexivity. Qed.
+
+Lemma lookup_In {V} k (t : list (str * V)) v : lookup k t = Some v -> In (k, v) t.
+Proof.
+  induction t as [|[n w] t IH]; simpl; [discriminate|].
+  destruct (streqb n k) eqn:E.
+  - intros [= ->]. apply streqb_spec in E. subst. now left.
+  - intros H. right. now apply IH.
+Qed.
+
+Lemma lookup_lower {V} k (t : list (str * V)) v :
+  table_names_lower t = true -> lookup k t = Some v -> forallb is_lower k = true.
+Proof.
+  intros T H. apply lookup_In in H. unfold table_names_lower in T.
+  rewrite forallb_forall in T. exact (T _ H).
+Qed.
+
+Lemma colour_lookup_ok k c : lookup k fmt_colors = Some c -> colour_ok c = true.
+Proof.
+  intros H. apply lookup_In in H. pose proof colors_two_digits as T.
+  rewrite forallb_forall in T. exact (T _ H).
+Qed.
+
+Lemma colour_sprintf k c : lookup k fmt_colors = Some c -> sprintf_02d c = two_digits c.
+Proof.
+  intros H. apply colour_lookup_ok in H. unfold colour_ok in H.
+  apply andb_true_iff in H as [H _]. now apply streqb_spec.
+Qed.
+
+(* ---- bytes ---- *)
+
+Lemma lower1_lower_alpha b : is_lower (lower1 b) = true -> is_alpha b = true.
+Proof. unfold is_lower, lower1, is_alpha, is_upper, is_lower. destruct ((65 <=? b) && (b <=? 90)) eqn:E; lia. Qed.
+
+Lemma lower_all_alpha n : forallb is_lower (to_lower_ascii n) = true -> forallb is_alpha n = true.
+Proof.
+  unfold to_lower_ascii. rewrite !forallb_forall. intros H x Hx.
+  apply lower1_lower_alpha, H, in_map, Hx.
+Qed.
+
+Lemma alpha_tok_byte c : is_alpha c = true -> is_tok_byte c = true.
+Proof. unfold is_tok_byte. intros ->. apply orb_true_r. Qed.
+
+Lemma alpha_all_tok n : forallb is_alpha n = true -> forallb is_tok_byte n = true.
+Proof. rewrite !forallb_forall. intros H x Hx. apply alpha_tok_byte, H, Hx. Qed.
+
+Lemma lower_no_comma n : forallb is_lower n = true -> ~ In comma_c n.
+Proof. rewrite forallb_forall. intros H X. apply H in X. vm_compute in X. discriminate. Qed.
+
+Lemma tok_byte_not_open c : is_tok_byte c = true -> N.eqb c fmt_open = false.
+Proof.
+  unfold is_tok_byte, is_alpha, is_upper, is_lower, comma_c, fmt_open. intros H.
+  apply N.eqb_neq. intros ->. vm_compute in H. discriminate.
+Qed.
+
+Lemma tok_byte_not_close c : is_tok_byte c = true -> N.eqb c fmt_close = false.
+Proof.
+  unfold is_tok_byte, is_alpha, is_upper, is_lower, comma_c, fmt_close. intros H.
+  apply N.eqb_neq. intros ->. vm_compute in H. discriminate.
+Qed.
+
+Lemma index_byte_none c s : ~ In c s -> index_byte c s = None.
+Proof.
+  induction s as [|x s IH]; simpl; intros H; [reflexivity|].
+  rewrite neq_eqb_false by (intros ->; apply H; now left).
+  rewrite IH by (intros X; apply H; now right). reflexivity.
+Qed.
+
+Lemma index_byte_app c a b : ~ In c a -> index_byte c (a ++ c :: b) = Some (length a).
+Proof.
+  induction a as [|x a IH]; simpl; intros H.
+  - now rewrite N.eqb_refl.
+  - rewrite neq_eqb_false by (intros ->; apply H; now left).
+    rewrite IH by (intros X; apply H; now right). reflexivity.
+Qed.
+
+Lemma split_comma_none s : ~ In comma_c s -> split_comma s = (s, []).
+Proof. intros H. unfold split_comma. now rewrite index_byte_none. Qed.
+
+Lemma split_comma_app a b : ~ In comma_c a -> split_comma (a ++ comma_c :: b) = (a, b).
+Proof.
+  intros H. unfold split_comma. rewrite index_byte_app by exact H.
+  rewrite firstn_app_len.
+  replace (a ++ comma_c :: b) with ((a ++ [comma_c]) ++ b) by now rewrite <- app_assoc.
+  replace (S (length a)) with (length (a ++ [comma_c])) by (rewrite app_length; simpl; lia).
+  now rewrite skipn_app_len.
+Qed.
+
+(* ---- the replacement of a known token is the documented sequence ---- *)
+
+Lemma fmt_repl_colour n c : colour_of n = Some c -> fmt_repl n = colour_seq c.
+Proof.
+  unfold colour_of. intros H. unfold fmt_repl.
+  rewrite split_comma_none by (apply lower_no_comma; eapply lookup_lower; [exact colors_lower|exact H]).
+  cbn [fst snd]. unfold fmt_repl_parts. rewrite H. rewrite (colour_sprintf _ _ H). reflexivity.
+Qed.
+
+Lemma fmt_repl_code n b : colour_of n = None -> code_of n = Some b -> fmt_repl n = b.
+Proof.
+  unfold colour_of, code_of. intros Hc H. unfold fmt_repl.
+  rewrite split_comma_none by (apply lower_no_comma; eapply lookup_lower; [exact codes_lower|exact H]).
+  cbn [fst snd]. unfold fmt_repl_parts. rewrite Hc, H. reflexivity.
+Qed.
+
+Lemma to_lower_app a b : to_lower_ascii (a ++ b) = to_lower_ascii a ++ to_lower_ascii b.
+Proof. apply map_app. Qed.
+
+Lemma fmt_repl_pair f b cf cb :
+  colour_of f = Some cf -> colour_of b = Some cb ->
+  fmt_repl (f ++ comma_c :: b) = colour_seq cf ++ comma_c :: two_digits cb.
+Proof.
+  unfold colour_of. intros Hf Hb. unfold fmt_repl.
+  rewrite to_lower_app. change (to_lower_ascii (comma_c :: b)) with (comma_c :: to_lower_ascii b).
+  rewrite split_comma_app by (apply lower_no_comma; eapply lookup_lower; [exact colors_lower|exact Hf]).
+  cbn [fst snd]. unfold fmt_repl_parts. rewrite Hf.
+  destruct (to_lower_ascii b) as [|x lb] eqn:E; [vm_compute in Hb; discriminate|].
+  rewrite Hb. rewrite (colour_sprintf _ _ Hf), (colour_sprintf _ _ Hb). reflexivity.
+Qed.
+
+(* ---- the scan ---- *)
+
+Lemma fmt_scan_cons out last c r :
+  fmt_scan out last (c :: r) =
+  if N.eqb c fmt_open then fmt_scan (out ++ [c]) (Some (length out)) r
+  else match last with
+       | Some l =>
+           if N.eqb c fmt_close then
+             fmt_scan (firstn l out ++ fmt_repl (skipn (S l) out)) None r
+           else if is_tok_byte c then fmt_scan (out ++ [c]) (Some l) r
+           else fmt_scan (out ++ [c]) None r
+       | None => fmt_scan (out ++ [c]) None r
+       end.
+Proof. reflexivity. Qed.
+
+(* inside a token: ',' and letters are copied and `last` stays *)
+Lemma fmt_scan_inside out l b t :
+  forallb is_tok_byte b = true ->
+  fmt_scan out (Some l) (b ++ t) = fmt_scan (out ++ b) (Some l) t.
+Proof.
+  revert out. induction b as [|c b IH]; intros out H.
+  - now rewrite app_nil_r.
+  - simpl in H. apply andb_true_iff in H as [Hc Hb].
+    change ((c :: b) ++ t) with (c :: (b ++ t)). rewrite fmt_scan_cons.
+    rewrite (tok_byte_not_open _ Hc), (tok_byte_not_close _ Hc), Hc.
+    rewrite IH by exact Hb. now rewrite <- app_assoc.
+Qed.
+
+(* a whole {body}: replaced by fmt_repl body, whatever `last` was *)
+Lemma fmt_scan_token out last b t :
+  forallb is_tok_byte b = true ->
+  fmt_scan out last (fmt_open :: b ++ fmt_close :: t) = fmt_scan (out ++ fmt_repl b) None t.
+Proof.
+  intros H. rewrite fmt_scan_cons. rewrite N.eqb_refl.
+  rewrite fmt_scan_inside by exact H. rewrite fmt_scan_cons.
+  change (N.eqb fmt_close fmt_open) with false. cbv iota. rewrite N.eqb_refl.
+  rewrite <- app_assoc. rewrite firstn_app_len.
+  replace (out ++ [fmt_open] ++ b) with ((out ++ [fmt_open]) ++ b) by now rewrite <- app_assoc.
+  replace (S (length out)) with (length (out ++ [fmt_open])) by (rewrite app_length; simpl; lia).
+  now rewrite skipn_app_len.
+Qed.
+
+Lemma known_tok_bytes n : colour_of n <> None \/ code_of n <> None -> forallb is_tok_byte n = true.
+Proof.
+  unfold colour_of, code_of. intros [H|H].
+  - destruct (lookup (to_lower_ascii n) fmt_colors) eqn:E; [|congruence].
+    apply alpha_all_tok, lower_all_alpha. eapply lookup_lower; [exact colors_lower|exact E].
+  - destruct (lookup (to_lower_ascii n) fmt_codes) eqn:E; [|congruence].
+    apply alpha_all_tok, lower_all_alpha. eapply lookup_lower; [exact codes_lower|exact E].
+Qed.
+
+Lemma forallb_app' {A} (f : A -> bool) a b : forallb f (a ++ b) = forallb f a && forallb f b.
+Proof. induction a; simpl; [reflexivity|]. now rewrite IHa, andb_assoc. Qed.
+
+(* one known piece *)
+Lemma fmt_scan_piece out p t :
+  (forall s, p = Lit s -> no_open s) -> known1 p ->
+  fmt_scan out None (render1 p ++ t) = fmt_scan (out ++ expected1 p) None t.
+Proof.
+  intros HL HK. destruct p as [s|n|f b]; simpl render1; simpl expected1.
+  - apply fmt_scan_copy. now apply HL.
+  - simpl in HK. change ((fmt_open :: n ++ [fmt_close]) ++ t) with (fmt_open :: (n ++ [fmt_close]) ++ t).
+    rewrite <- app_assoc. change ([fmt_close] ++ t) with (fmt_close :: t).
+    rewrite fmt_scan_token by now apply known_tok_bytes.
+    destruct (colour_of n) as [c|] eqn:Ec.
+    + now rewrite (fmt_repl_colour _ _ Ec).
+    + destruct HK as [HK|HK]; [congruence|].
+      destruct (code_of n) as [cb|] eqn:Ed; [|congruence].
+      now rewrite (fmt_repl_code _ _ Ec Ed).
+  - simpl in HK. destruct HK as [Hf Hb].
+    change ((fmt_open :: (f ++ comma_c :: b) ++ [fmt_close]) ++ t)
+      with (fmt_open :: ((f ++ comma_c :: b) ++ [fmt_close]) ++ t).
+    rewrite <- app_assoc. change ([fmt_close] ++ t) with (fmt_close :: t).
+    rewrite fmt_scan_token.
+    + destruct (colour_of f) as [cf|] eqn:Ef; [|congruence].
+      destruct (colour_of b) as [cb|] eqn:Eb; [|congruence].
+      now rewrite (fmt_repl_pair _ _ _ _ Ef Eb).
+    + rewrite forallb_app'. simpl. rewrite (known_tok_bytes f), (known_tok_bytes b) by (now left).
+      reflexivity.
+Qed.
+
+Lemma fmt_scan_pieces ps out t :
+  lits_ok no_open ps -> Forall known1 ps ->
+  fmt_scan out None (render ps ++ t) = fmt_scan (out ++ expected ps) None t.
+Proof.
+  revert out. induction ps as [|p ps IH]; intros out HL HK.
+  - simpl. now rewrite app_nil_r.
+  - unfold render, expected. simpl map. simpl concat. fold (render ps). fold (expected ps).
+    rewrite <- app_assoc. inversion HK as [|? ? K1 K2]; subst.
+    rewrite fmt_scan_piece; [|intros s ->; apply HL; now left|exact K1].
+    rewrite IH; [|intros s Hs; apply HL; now right|exact K2].
+    now rewrite <- app_assoc.
+Qed.
+
+(* C20_fmt (literals need only be free of '{') *)
+Lemma fmt_pieces ps :
+  lits_ok no_open ps -> Forall known1 ps -> fmt (render ps) = expected ps.
+Proof.
+  intros HL HK. unfold fmt. rewrite <- (app_nil_r (render ps)).
+  rewrite fmt_scan_pieces by assumption. reflexivity.
+Qed.
+
+Lemma fmt_pieces_brace_free ps :
+  lits_ok brace_free ps -> Forall known1 ps -> fmt (render ps) = expected ps.
+Proof. intros HL. apply fmt_pieces. intros s Hs. exact (proj1 (HL s Hs)). Qed.
+
+(* the hypotheses are satisfiable, with tokens in mixed case, and the conclusion is the
+   documented text *)
+Example fmt_pieces_example :
+  let ps := [Tok (bs "rEd"); Tok (bs "B"); Lit (bs "Hello "); Tok2 (bs "Red") (bs "BLUE");
+             Lit (bs "World}"); Tok (bs "c")] in
+  lits_ok no_open ps /\ Forall known1 ps /\
+  fmt (render ps) = [3; 48; 52; 2] ++ bs "Hello " ++ [3; 48; 52; 44; 48; 50] ++ bs "World}" ++ [3].
+Proof.
+  cbv zeta. split; [|split].
+  - intros s [H|[H|[H|[H|[H|[H|[]]]]]]]; try discriminate; injection H as <-; vm_compute;
+      intuition discriminate.
+  - repeat (apply Forall_cons;
+      [vm_compute; ((left; discriminate) || (right; discriminate) || (split; discriminate) || exact I)|]).
+    apply Forall_nil.
+  - vm_compute. reflexivity.
+Qed.
+
+(* ====================================================================================== *)
+(* TrimFmt                                                                                *)
+(* ====================================================================================== *)
+
+Lemma streqb_sym a b : streqb a b = streqb b a.
+Proof.
+  destruct (streqb a b) eqn:E; symmetry.
+  - apply streqb_spec in E. subst. apply streqb_refl.
+  - apply streqb_false in E. apply streqb_false. congruence.
+Qed.
+
+(* {n} is a prefix of {b}R exactly when n = b (neither contains '}') *)
+Lemma prefix_close n b R :
+  ~ In fmt_close n -> ~ In fmt_close b ->
+  prefixb (n ++ [fmt_close]) (b ++ fmt_close :: R) = streqb n b.
+Proof.
+  revert b. induction n as [|y n IH]; intros [|x b] Hn Hb; cbn [app prefixb streqb].
+  - now rewrite N.eqb_refl.
+  - rewrite neq_eqb_false; [reflexivity|]. intros E. apply Hb. left. congruence.
+  - rewrite neq_eqb_false; [reflexivity|]. intros E. apply Hn. left. congruence.
+  - rewrite IH; [reflexivity| |]; intros X; [apply Hn|apply Hb]; now right.
+Qed.
+
+Lemma prefix_pat_tok n b R :
+  ~ In fmt_close n -> ~ In fmt_close b ->
+  prefixb (tok_pat n) (fmt_open :: b ++ fmt_close :: R) = streqb n b.
+Proof.
+  intros Hn Hb. unfold tok_pat. cbn [prefixb]. rewrite N.eqb_refl. simpl andb.
+  now apply prefix_close.
+Qed.
+
+(* text without '{' contains no occurrence and is copied *)
+Lemma remove_pat_copy n s R :
+  no_open s -> remove_all (tok_pat n) (s ++ R) = s ++ remove_all (tok_pat n) R.
+Proof.
+  induction s as [|c s IH]; intros H; [reflexivity|].
+  change ((c :: s) ++ R) with (c :: (s ++ R)). rewrite remove_all_miss.
+  - rewrite IH by (intros X; apply H; now right). reflexivity.
+  - unfold tok_pat. cbn [prefixb]. rewrite N.eqb_sym.
+    rewrite neq_eqb_false by (intros ->; apply H; now left). reflexivity.
+Qed.
+
+Lemma tok_pat_nonempty n : tok_pat n <> [].
+Proof. discriminate. Qed.
+
+(* a whole token {b} in front of R *)
+Lemma remove_pat_token n b R :
+  ~ In fmt_close n -> brace_free b ->
+  remove_all (tok_pat n) (tok_pat b ++ R) =
+  if streqb n b then remove_all (tok_pat n) R else tok_pat b ++ remove_all (tok_pat n) R.
+Proof.
+  intros Hn [Hbo Hbc]. destruct (streqb n b) eqn:E.
+  - apply streqb_spec in E. subst b. apply remove_all_hit, tok_pat_nonempty.
+  - unfold tok_pat at 2 4. change ((fmt_open :: b ++ [fmt_close]) ++ R) with (fmt_open :: (b ++ [fmt_close]) ++ R).
+    rewrite remove_all_miss.
+    + rewrite remove_pat_copy; [reflexivity|].
+      intros X. apply in_app_or in X as [X|[X|[]]]; [now apply Hbo|discriminate].
+    + rewrite <- app_assoc. change ([fmt_close] ++ R) with (fmt_close :: R).
+      rewrite prefix_pat_tok by assumption. exact E.
+Qed.
+
+Lemma render1_tok p : is_tok p = true -> render1 p = tok_pat (body p).
+Proof. destruct p; [discriminate| |]; reflexivity. Qed.
+
+Lemma body_brace_free p : is_tok p = true -> tok_wf p -> brace_free (body p).
+Proof.
+  destruct p as [s|n|f b]; [discriminate|auto|]. intros _ [[Hfo Hfc] [Hbo Hbc]]. simpl.
+  split; intros X; apply in_app_or in X as [X|[X|X]]; try discriminate; auto.
+Qed.
+
+(* pieces that one ReplaceAll pass of {n} deletes *)
+Definition hit (n : str) (p : piece) : bool := is_tok p && streqb n (body p).
+
+Definition pieces_ok (ps : list piece) : Prop := lits_ok no_open ps /\ Forall tok_wf ps.
+
+Lemma pieces_ok_cons p ps : pieces_ok (p :: ps) ->
+  (forall s, p = Lit s -> no_open s) /\ tok_wf p /\ pieces_ok ps.
+Proof.
+  intros [HL HW]. inversion HW; subst. repeat split; auto.
+  - intros s ->. apply HL. now left.
+  - intros s Hs. apply HL. now right.
+Qed.
+
+Lemma pieces_ok_filter f ps : pieces_ok ps -> pieces_ok (filter f ps).
+Proof.
+  intros [HL HW]. split.
+  - intros s Hs. apply filter_In in Hs as [Hs _]. now apply HL.
+  - rewrite Forall_forall in *. intros p Hp. apply filter_In in Hp as [Hp _]. now apply HW.
+Qed.
+
+Lemma render_cons p ps : render (p :: ps) = render1 p ++ render ps.
+Proof. reflexivity. Qed.
+
+Lemma remove_pat_pieces n ps :
+  ~ In fmt_close n -> pieces_ok ps ->
+  remove_all (tok_pat n) (render ps) = render (filter (fun p => negb (hit n p)) ps).
+Proof.
+  intros Hn. induction ps as [|p ps IH]; intros Hok.
+  - apply remove_all_nil.
+  - apply pieces_ok_cons in Hok as (HL & HW & Hok). rewrite render_cons.
+    cbn [filter]. unfold hit at 1. destruct (is_tok p) eqn:Et.
+    + rewrite (render1_tok _ Et). rewrite remove_pat_token by (auto using body_brace_free).
+      cbn [andb]. destruct (streqb n (body p)); cbn [negb].
+      * now apply IH.
+      * rewrite render_cons, (render1_tok _ Et). f_equal. now apply IH.
+    + cbn [andb negb]. destruct p as [s| |]; try discriminate. rewrite render_cons.
+      cbn [render1]. rewrite remove_pat_copy by (now apply HL). f_equal. now apply IH.
+Qed.
+
+Definition removed (order : list str) (p : piece) : bool :=
+  is_tok p && existsb (fun n => streqb n (body p)) order.
+
+Lemma trim_fmt_pieces order ps :
+  Forall (fun n => ~ In fmt_close n) order -> pieces_ok ps ->
+  trim_fmt order (render ps) = render (filter (fun p => negb (removed order p)) ps).
+Proof.
+  unfold trim_fmt. intros H. revert ps. induction H as [|n order Hn _ IH]; intros ps Hok; cbn [fold_left].
+  - f_equal. symmetry. apply filter_all_true. intros p _. unfold removed. cbn [existsb].
+    now rewrite andb_false_r.
+  - rewrite remove_pat_pieces by assumption. rewrite IH by now apply pieces_ok_filter.
+    f_equal. rewrite filter_filter. apply filter_ext_bool. intros p.
+    unfold removed, hit. cbn [existsb]. destruct (is_tok p); cbn [andb]; [|reflexivity].
+    now rewrite negb_orb.
+Qed.
+
+Lemma existsb_perm {A} (f : A -> bool) l l' : Permutation l l' -> existsb f l = existsb f l'.
+Proof.
+  intros P. destruct (existsb f l) eqn:E, (existsb f l') eqn:E'; try reflexivity.
+  - apply existsb_exists in E as (x & Hx & Hf). assert (existsb f l' = true); [|congruence].
+    apply existsb_exists. exists x. split; [eapply Permutation_in; eauto|exact Hf].
+  - apply existsb_exists in E' as (x & Hx & Hf). assert (existsb f l = true); [|congruence].
+    apply existsb_exists. exists x. split; [eapply Permutation_in; [apply Permutation_sym|]; eauto|exact Hf].
+Qed.
+
+(* facts about the key set, by computation *)
+Lemma trim_names_lower : forallb (forallb is_lower) trim_names = true.
+Proof. vm_compute. reflexivity. Qed.
+
+Lemma trim_name_props n : In n trim_names -> ~ In fmt_close n /\ ~ In comma_c n.
+Proof.
+  intros H. pose proof trim_names_lower as T. rewrite forallb_forall in T. specialize (T _ H).
+  rewrite forallb_forall in T. split; intros X; apply T in X; vm_compute in X; discriminate.
+Qed.
+
+Lemma removed_lower_known p : removed trim_names p = lower_known p.
+Proof.
+  unfold removed. destruct p as [s|n|f b]; cbn [is_tok andb body lower_known]; [reflexivity| |].
+  - clear. induction trim_names as [|x l IH]; simpl; [reflexivity|]. now rewrite IH, streqb_sym.
+  - destruct (existsb _ trim_names) eqn:E; [|reflexivity].
+    apply existsb_exists in E as (x & Hx & E). apply streqb_spec in E. subst x.
+    apply trim_name_props in Hx as [_ Hx]. exfalso. apply Hx. apply in_or_app. right. now left.
+Qed.
+
+Lemma render_filter_expected ps :
+  render (filter (fun p => negb (lower_known p)) ps) = trim_expected ps.
+Proof.
+  unfold trim_expected. induction ps as [|p ps IH]; [reflexivity|]. cbn [filter map concat].
+  destruct (lower_known p); cbn [negb]; [exact IH|]. rewrite render_cons. now rewrite IH.
+Qed.
+
+(* C20_trim: whatever the iteration order of the two maps *)
+Lemma trim_fmt_any_order order ps :
+  Permutation order trim_names -> pieces_ok ps ->
+  trim_fmt order (render ps) = trim_expected ps.
+Proof.
+  intros P Hok. rewrite trim_fmt_pieces; [|
+    rewrite Forall_forall; intros n Hn; apply trim_name_props; eapply Permutation_in; eauto | exact Hok].
+  rewrite <- render_filter_expected. f_equal. apply filter_ext_bool. intros p. f_equal.
+  rewrite <- removed_lower_known. unfold removed. f_equal. now apply existsb_perm.
+Qed.
+
+(* in the words of the statement: brace-free literals *)
+Lemma trim_fmt_any_order_brace_free order ps :
+  Permutation order trim_names -> lits_ok brace_free ps -> Forall tok_wf ps ->
+  trim_fmt order (render ps) = trim_expected ps.
+Proof.
+  intros P HL HW. apply trim_fmt_any_order; [exact P|]. split; [|exact HW].
+  intros s Hs. exact (proj1 (HL s Hs)).
+Qed.
+
+(* satisfiable, with a non-trivial order (the reverse), upper-case and pair tokens kept *)
+Example trim_fmt_example :
+  let ps := [Tok (bs "red"); Lit (bs "a}"); Tok (bs "RED"); Tok2 (bs "red") (bs "blue");
+             Tok (bs "b"); Tok (bs "foo"); Lit (bs "z")] in
+  Permutation (rev trim_names) trim_names /\ pieces_ok ps /\
+  trim_fmt (rev trim_names) (render ps) = bs "a}{RED}{red,blue}{foo}z".
+Proof.
+  cbv zeta. split; [apply Permutation_sym, Permutation_rev|]. split; [split|].
+  - intros s [H|[H|[H|[H|[H|[H|[H|[]]]]]]]]; try discriminate; injection H as <-; vm_compute;
+      intuition discriminate.
+  - repeat (apply Forall_cons; [vm_compute; intuition discriminate|]). apply Forall_nil.
+  - vm_compute. reflexivity.
+Qed.
